@@ -112,6 +112,11 @@ extern "C" void vf_probe(void);     // defined by the generated TU: logs what th
 #ifndef VF_PROBE
 #define VF_PROBE(phase, idx, fsm)
 #endif
+// C12: every behaviour is a possible throw point; the harness decides (vf_hook) which single position throws in a step
+struct vf_exc : std::exception {};
+#ifdef VF_THROW_ON
+#define VF_BEHAV_HOOK(kind, idx, e, fsm) if (vf_hook((kind) * 64 + (idx))) throw vf_exc();
+#endif
 #ifndef VF_BEHAV_HOOK
 #define VF_BEHAV_HOOK(kind, idx, e, fsm)
 #endif
